@@ -41,8 +41,8 @@ CLAIMED = {
          "Decides L1-L3: pops are refused before playback, a failed pop does not move the head, Clear really forgets buffered packets. Necessary conditions; list ordering for arbitrary push orders is a value property and is not decided.",
          "table of gated methods / root fields is frozen per type"),
  "C20": ("DESIGN.md §3 J",
-         "abstract interpretation of Unwrap's SSA in the congruence domain ℤ/2^16 (affine forms over input and previous result)",
-         "Proves, for all inputs and prior states, that Unwrap's result and stored state are congruent to the input modulo 2^16 (one clause of the property). Proximity, non-negativity and all NTP clauses are not decided; claimed at level 'other' for that reason.",
+         "abstract interpretation of Unwrap's SSA in the congruence domain ℤ/2^16 (affine forms over input and previous result) + inductive sign proof over integer linear forms with dominating-guard matching",
+         "Proves, for all inputs and prior states, that Unwrap's result and stored state are congruent to the input modulo 2^16 (J1) and, by induction on the state, non-negative (J2). The ±2^15 proximity clause and all NTP clauses are not decided; claimed at level 'other' for that reason.",
          "integer conversions between ≥16-bit types preserve the residue class; the state field is only written by Unwrap"),
  "C09": ("DESIGN.md §3 G, F1, E2",
          "control-dependence rule on delta cursors (post-dominators + backward slice to history lookups), per-iteration path counting of position counters, index-guard rule",
